@@ -55,14 +55,19 @@ ItemBase  == 1000
 \* sub/m2 additionally has a public function s.
 LibMods   == {"m2", "sub/m2"}
 LibBase(m) == IF m = "m2" THEN 2000 ELSE 3000          \* the module itself (target of an accessor)
-LibOff    == [a |-> 1, c |-> 2, A |-> 3, C |-> 4, k |-> 5]   \* public values (A, C: the constructors)
+LibOff    == [a |-> 1, c |-> 2, A |-> 3, C |-> 4, k |-> 5, R |-> 9, mk |-> 12]   \* public values (A, C, R: constructors; mk: sub/m2 only)
 OffTypeT  == 6                          \* `pub type T { W }`: same spelling as m1's own type
 OffTypeA  == 7                          \* `pub type A { A(a: Int) C }`: the type A (the constructor A is LibOff.A)
 OffFieldA == 8                          \* ... and its labelled field a
+\* `pub type R { R(f: Int) }` (both modules): a record with a field every variant has, so `value.f` is legal.
+\* sub/m2 imports m2 and has `pub fn mk() -> m2.R { m2.R(f: 1) }`: a module that imports ONLY sub/m2 can hold a value
+\* whose type - and whose field f - is declared in a module it does not import (`acc.mk().f`).
+OffTypeR  == 10
+OffFieldF == 11
 LibVal(m, n) == LibBase(m) + LibOff[n]
 LibPrivate == {"p", "Q"}                 \* private function p; constructor Q of the private type P
 \* what `acc.` offers: the public functions and constructors of the module
-LibMembers(m) == {"a", "c", "A", "C", "W"} \cup (IF m = "sub/m2" THEN {"s"} ELSE {})
+LibMembers(m) == {"a", "c", "A", "C", "W", "R"} \cup (IF m = "sub/m2" THEN {"s", "mk"} ELSE {})
 
 \* One import:  import <m> [.{ item }] [as <as>]
 \*   u = "unq"       .{c}             the function c
@@ -156,7 +161,8 @@ Resolve(name) == IF Local(name) # 0 THEN Local(name) ELSE ModuleValue(name)
 
 \* `c` is written whether or not it is imported (unbound otherwise); `d` only when some import declares it
 RefNames == Names \cup {"c"} \cup (IF UnqAt("unqalias") # 0 THEN {"d"} ELSE {})
-Visible  == {n \in Names \cup SpareNames \cup {"c", "d", "T", "V", "Ok", "A"} : Resolve(n) # 0}
+\* (a local may be spelled like a module accessor - q, r, m2 - see shadow_acc_*: then it is a visible value name)
+Visible  == {n \in Names \cup SpareNames \cup {"c", "d", "T", "V", "Ok", "A", "q", "r", "m2"} : Resolve(n) # 0}
 \* module accessors in scope for `name.`: every import brings its module in under the last segment of its path, `as q`
 \* under the alias ONLY; AccMod: the module an accessor stands for
 Accessors == {AccOf(imps[k]) : k \in 1..Len(imps)}
@@ -211,6 +217,17 @@ Prods(h) ==
                                       Sym("LABEL", "a", 0), T(":"), NT("EXPR"), T(")"), CLOSE>>),
            P(1, "own_ctor2_labelled", <<NT("NEEDTYPE"), OPEN("EXPR_CALL"), Sym("OWNCTOR", "2", 0), T("("), Sym("LABEL", "a", 0), T(":"), NT("EXPR"), T(","),
                                        Sym("LABEL", "b", 0), T(":"), NT("EXPR"), T(")"), CLOSE>>),
+           \* a field of a record whose type is declared in a module this one need not import: sub/m2's mk() returns m2's R
+           P(1, "indirect_field", <<NT("NEEDSUB"), OPEN("FIELD_ACCESS"), OPEN("EXPR_CALL"), OPEN("FIELD_ACCESS"), NT("SUBMK"), CLOSE, T("("), T(")"), CLOSE,
+                                    T("."), Sym("LIBFIELD", "f", 0), CLOSE>>),
+           \* a local spelled like a module accessor in scope.  Gleam reads `x.l` as a record access when x is a value with
+           \* a field l, and as a module access otherwise: a record-typed local q shadows the accessor q in `q.a` ...
+           P(1, "shadow_acc_field", <<NT("NEEDTYPE"), NT("NEEDACC"), OPEN("BLOCK"), T("{"), NT("MARK"), OPEN("STMT_LET"), T("let"), NT("PATSTART"), NT("ACCBINDER"), T("="),
+                                      OPEN("EXPR_CALL"), Sym("OWNCTOR", "T", 0), T("("), T("1"), T(","), T("1"), T(")"), CLOSE, NT("COMMIT"), CLOSE,
+                                      OPEN("STMT_EXPR"), OPEN("FIELD_ACCESS"), NT("ACCLOCALREF"), T("."), Sym("FIELDREF", "a", 0), CLOSE, CLOSE, NT("POPMARK"), T("}"), CLOSE>>),
+           \* ... while `q.c` with an Int-typed local q still denotes the module's c
+           P(1, "shadow_acc_mod", <<NT("NEEDACC"), OPEN("BLOCK"), T("{"), NT("MARK"), OPEN("STMT_LET"), T("let"), NT("PATSTART"), NT("ACCBINDER"), T("="), T("1"), NT("COMMIT"), CLOSE,
+                                    OPEN("STMT_EXPR"), OPEN("EXPR_CALL"), OPEN("FIELD_ACCESS"), NT("ACCMODREF"), CLOSE, T("("), T(")"), CLOSE, CLOSE, NT("POPMARK"), T("}"), CLOSE>>),
            P(1, "own_field", <<NT("NEEDTYPE"), OPEN("FIELD_ACCESS"), OPEN("EXPR_CALL"), Sym("OWNCTOR", "T", 0), T("("), T("1"), T(","), NT("EXPR"), T(")"), CLOSE,
                                T("."), Sym("FIELDREF", "a", 0), CLOSE>>) }
     [] h.s = "EXPR0" ->            \* operand position: atoms only
@@ -337,6 +354,29 @@ Step ==
                          ELSE Append(out, Tok(q, "tref", TypeResolve(q), {}))
                /\ todo' = Rest /\ UNCHANGED <<frames, pending, budget>>
        [] h.s = "NEEDACC" -> /\ Accessors # {} /\ todo' = Rest /\ UNCHANGED <<out, frames, pending, budget>>
+       [] h.s = "NEEDSUB" -> /\ (\E acc \in Accessors : AccMod(acc) = "sub/m2") /\ todo' = Rest /\ UNCHANGED <<out, frames, pending, budget>>
+       \* `acc.mk` through an accessor of sub/m2
+       [] h.s = "SUBMK" ->
+            \E acc \in Pick({x \in Accessors : AccMod(x) = "sub/m2"}) :
+               /\ out' = out \o <<Tok(acc, "modref", LibBase("sub/m2"), Visible), Plain("."), Tok("mk", "qref", LibVal("sub/m2", "mk"), {})>>
+               /\ todo' = Rest /\ UNCHANGED <<frames, pending, budget>>
+       \* the field f of m2's record R (the value came from sub/m2's mk)
+       [] h.s = "LIBFIELD" -> /\ Emit(Tok(h.x, "field", LibBase("m2") + OffFieldF, {})) /\ todo' = Rest /\ UNCHANGED <<frames, pending, budget>>
+       \* a let binder spelled like an accessor in scope
+       [] h.s = "ACCBINDER" ->
+            \E acc \in Pick(Accessors) :
+               /\ Emit(Tok(acc, "def", Len(out) + 1, {}))
+               /\ pending' = [pending EXCEPT ![Len(pending)] = pending[Len(pending)] \cup {<<acc, Len(out) + 1>>}]
+               /\ todo' = Rest /\ UNCHANGED <<frames, budget>>
+       \* the name just bound (the innermost frame is that let's), as a value ...
+       [] h.s = "ACCLOCALREF" ->
+            /\ \E e \in frames[Len(frames)].b : Emit(Tok(e[1], "ref", e[2], Visible))
+            /\ todo' = Rest /\ UNCHANGED <<frames, pending, budget>>
+       \* ... and as the module it still stands for in `name.c`
+       [] h.s = "ACCMODREF" ->
+            /\ \E e \in frames[Len(frames)].b :
+                 out' = out \o <<Tok(e[1], "modref", LibBase(AccMod(e[1])), Visible), Plain("."), Tok("c", "qref", LibVal(AccMod(e[1]), "c"), {})>>
+            /\ todo' = Rest /\ UNCHANGED <<frames, pending, budget>>
        [] h.s \in {"QCTORA", "PQCTORA"} ->
             \E acc \in Pick(Accessors) :
                /\ out' = out \o <<Tok(acc, IF h.s = "QCTORA" THEN "modref" ELSE "pmodref", LibBase(AccMod(acc)), {}), Plain("."),
@@ -381,7 +421,7 @@ Step ==
                /\ Emit(Tok(n, "ref", Resolve(n), Visible))
                /\ todo' = Rest /\ UNCHANGED <<frames, pending, budget>>
        [] h.s = "QUALIFIED" ->
-            /\ \E acc \in Pick(Accessors), n \in Pick({"a", "c", "p", "k", "A", "Q"}) :
+            /\ \E acc \in Pick(Accessors), n \in Pick({"a", "c", "p", "k", "A", "Q", "R"}) :
                  /\ out' = out \o <<Tok("FIELD_ACCESS", "open", 0, {}),
                                     Tok(acc, "modref", LibBase(AccMod(acc)), Visible), Plain("."),
                                     Tok(n, "qref", IF n \in LibPrivate THEN 0 ELSE LibVal(AccMod(acc), n), {}),
@@ -407,7 +447,7 @@ Done == phase = "body" /\ todo = <<>>
 \* name (an occurrence through an import alias keeps its spelling).  Library declarations are declared in m2 (2001..) and
 \* sub/m2 (3001..): the edits in the declaring module are its declaration and its uses there (the harness knows the fixed
 \* texts); the other library module is never touched.
-LibDeclName == <<"a", "c", "A", "C", "k", "T", "A", "a">>      \* by offset: values a c A C k, type T, type A, field a
+LibDeclName == <<"a", "c", "A", "C", "k", "T", "A", "a", "R", "R", "f", "mk">>      \* by offset: values a c A C k, type T, type A, field a, constructor R, type R, field f, function mk
 DeclName(d) == IF d >= LibBase("m2") THEN LibDeclName[d % 1000]
                ELSE IF d > ItemBase + FieldB THEN "b" ELSE IF d > ItemBase + FieldA THEN "a"
                ELSE IF d > ItemBase + CtorU THEN v2 ELSE IF d > ItemBase + CtorT THEN "T"
